@@ -24,9 +24,13 @@ impl<U, V> NotEquals<U, V> {
 }
 
 impl<U: View, V: View> Prune for NotEquals<U, V> {
-    fn prune(&self, _ctx: &mut Context) -> Option<()> {
-        // This propagator is not used - the ne() constraint is implemented
-        // through alternative mechanisms. This is a no-op placeholder.
+    fn prune(&self, ctx: &mut Context) -> Option<()> {
+        // No pruning is done here, but two sides fixed to the same value violate x != y
+        let (x_min, x_max) = (self.x.min(ctx), self.x.max(ctx));
+        let (y_min, y_max) = (self.y.min(ctx), self.y.max(ctx));
+        if x_min == x_max && y_min == y_max && x_min == y_min {
+            return None;
+        }
         Some(())
     }
 }
